@@ -309,6 +309,11 @@ def _config_chunk(chunk, seed):
 
 
 def replay(case, res=None):
+    if "grid" in case:
+        from .. import boot as _boot
+        S, banned, what = case["grid"]
+        r = _grid_chunk([(S, tuple(banned), what)], _boot.SEED)
+        return [(v["sig"], v["msg"]) for v in r.violations]
     U = universe(case["seed"], case["n"])
     n = U.n
     if "config_pref" in case:
@@ -346,6 +351,42 @@ def replay(case, res=None):
     return bad
 
 
+def _grid_chunk(chunk, seed):
+    """grid half: with one (or two) servers holding no valid certificate, an immutable upload and a
+    mutable create+overwrite must never send allocate_buckets / a write to them"""
+    from .. import grid as G, lib_imm, lib_mut, boot
+    from allmydata.mutable.publish import MutableData
+    res = common.Result()
+    for (S, banned, what) in chunk:
+        g = G.Grid(S, client_kw=dict(k=2, n=4, happy=1, max_segment_size=64))
+        try:
+            c = g.clients[0]
+            for srv in c.storage_broker.servers:
+                if g.ids.index(srv.get_serverid()) in banned:
+                    srv.permitted = False
+            if what == "immutable":
+                b = lib_imm.upload(g, lib_imm.payload(100, seed, b"c32"))
+            else:
+                b = lib_mut.create(g, what, b"version one")
+                if b and b[0][0] == "ok":
+                    b = g.wait(b[0][1].overwrite(MutableData(b"version two, longer")))
+            g.quiesce()
+            res.count("evaluations")
+            res.count("grid_operations")
+            writes = [lbl for (k_, lbl, o) in g.sched.log if k_ == "deliver" and lbl.split(":")[1] in ("allocate_buckets", "slot_testv_and_readv_and_writev", "write", "close")]
+            hit = sorted(set(int(l.split("s")[1].split("#")[0]) for l in writes) & set(banned))
+            if hit:
+                res.violation("upload-directed-to-unpermitted-server:" + what, {"grid": [S, sorted(banned), what]}, "%s upload on %d servers with %r not permitted sent write traffic to server(s) %r: %r" % (what, S, sorted(banned), hit, [l for l in writes if int(l.split("s")[1].split("#")[0]) in hit][:4]))
+            if b and b[0][0] == "ok":
+                res.count("grid_ok")
+            if not writes:
+                res.count("grid_no_writes")
+            boot.R.take_errors(); boot.take_logged()
+        finally:
+            g.close()
+    return res
+
+
 def run(tier, seed):
     gc.collect()
     gc.freeze()     # keep forked workers from copying the whole (read-only) heap on their first collection
@@ -362,9 +403,12 @@ def run(tier, seed):
         items += [(n, o, P) for P in subsets(n) for o in orders]
     res = common.pmap(_chunk, items, (seed,))
     res.merge(common.pmap(_config_chunk, [(n, pref) for n, _ in plan for pref in subsets(n)], (seed,), chunks=1))
+    gitems = [(S, tuple(b), what) for S in (3, 4, 5) for b in ([0], [1], [S - 1], [0, 1]) for what in ("immutable", "SDMF", "MDMF")]
+    res.merge(common.pmap(_grid_chunk, gitems, (seed,)))
     n = plan[0][0]
     orders = plan[0][1]
     cov = {
+        "grid_operations_with_unpermitted_servers": res.counts.get("grid_operations", 0),
         "evaluations": res.counts.get("evaluations", 0),
         "distinct_nontrivial": res.counts.get("nontrivial", 0),
         "distinct_answers_with_2_or_more_servers": len([d for d in res.distinct if len(d) >= 2]),
@@ -385,5 +429,5 @@ MANIFEST = {
     "engine": "E",
     "technique": "exhaustive enumeration of insertion orders x certificate assignments x preferred subsets x connected subsets x storage indexes on the real StorageFarmBroker with real server objects",
     "text": "Five real server objects (four NativeStorageServer, one HTTPNativeStorageServer, seeds from all three branches of _parse_announcement, real grid-manager verifiers over certificates carried in the announcements) are added to a fresh StorageFarmBroker in 4 (thorough: all 120) insertion orders; for every certificate assignment, preferred subset, connected subset and 4 storage indexes the answer of get_servers_for_psi (read, upload before/after a certificate expires, upload with no key configured) is compared with connected-and-certified servers sorted by (not preferred, SHA-1(si+seed)) recomputed independently. peers.preferred is also fed through tahoe.cfg and StorageClientConfig.from_node_config.",
-    "note": "The grid half of the property (no allocate_buckets/writev ever reaches an unpermitted server during immutable upload / mutable publish) is NOT covered: it needs the virtual grid. Clock: allmydata.grid_manager.current_datetime_with_zone rebound; twisted plugin scan cached.",
+    "note": "The grid half (no allocate_buckets / write ever reaches an unpermitted server) is checked on the virtual grid for immutable upload and SDMF/MDMF create+overwrite with 1-2 unpermitted servers out of 3-5 (default schedule). Clock: allmydata.grid_manager.current_datetime_with_zone rebound; twisted plugin scan cached.",
 }
